@@ -113,7 +113,8 @@ def run_plan_case(case):
             if case["func"] in ("var",):
                 pass
             plan = [e for e in _verif.EVENTS if e["ev"] == "plan"]
-            o = {"kind": "ok", "vals": [pv_out(x, 1e-9) for x in r.reshape(-1)], "shape": list(r.shape), "plan": plan[-1]["method"] if plan else "eager"}
+            o = {"kind": "ok", "vals": [pv_out(x, 1e-9) for x in r.reshape(-1)], "shape": list(r.shape), "plan": plan[-1]["method"] if plan else "eager",
+                 "engine": plan[-1]["engine"] if plan else "-", "rb": ("T" if plan[-1]["reindex_blockwise"] else "F") if plan else "-"}
             if m == "map-reduce" or (m is None and not (case["arrdask"] or case["bydask"])):
                 out["groups"] = redcase.label_tokens(g, kind)
         except Exception as e:  # noqa: BLE001
@@ -173,7 +174,10 @@ def run(ctx):
         if not bw_scope:
             outs[3] = {"kind": "ValueError", "vals": [], "msg": "(out of scope: precondition of method='blockwise' not met)"}
         rec["out"] = outs
-        line = {"id": len(lines), "out": [{"kind": o["kind"], "vals": o["vals"], "plan": o.get("plan", "-")} for o in rec["out"]], "confined": bw_scope and confined(codes, chunks), "skipbw": not bw_scope,
+        line = {"id": len(lines), "out": [{"kind": o["kind"], "vals": o["vals"], "plan": o.get("plan", "-"), "engine": o.get("engine", "-"), "rb": o.get("rb", "-")} for o in rec["out"]],
+                # has_blockwise_nan_skipping: a "nan*" block function, which includes the nanlen counter of mean/var/count and of min_count > 0
+                "nanskip": rec["func"].startswith("nan") or rec["func"] in ("count", "mean", "var", "std") or (rec["req"] is not None and rec["func"] not in ("first", "last", "median")), "sortedlabels": [c for c in codes if True] == sorted(codes) and min(codes) >= 0,
+                "boolfamily": rec["func"] in ("any", "all"), "confined": bw_scope and confined(codes, chunks), "skipbw": not bw_scope,
                 "hascfg": True, "cfg": rec["cfg"]}
         owner[line["id"]] = rec
         lines.append(line)
@@ -203,8 +207,9 @@ def run(ctx):
                     red.append(redcase.tlc_record(r, len(red), check_groups=False))
     ctx.cov["outcome_kinds"] = kinds
     ctrl = {"id": -7, "hascfg": False, "cfg": lines[0]["cfg"], "confined": True, "skipbw": False,
-            "out": [{"kind": "TypeError", "vals": [], "plan": "-"}, {"kind": "ok", "vals": [[1, 1]], "plan": "-"}, {"kind": "ok", "vals": [[2, 1]], "plan": "-"},
-                    {"kind": "ok", "vals": [[1, 1]], "plan": "-"}]}
+            "nanskip": False, "sortedlabels": False, "boolfamily": False,
+            "out": [{"kind": "TypeError", "vals": [], "plan": "-", "engine": "-", "rb": "-"}, {"kind": "ok", "vals": [[1, 1]], "plan": "-", "engine": "-", "rb": "-"},
+                    {"kind": "ok", "vals": [[2, 1]], "plan": "-", "engine": "-", "rb": "-"}, {"kind": "ok", "vals": [[1, 1]], "plan": "-", "engine": "-", "rb": "-"}]}
     fails, stats = tlc.validate_trace("TracePlan", lines + [ctrl], tag="c19", shards=8)
     seen = False
     for f in fails:
